@@ -429,8 +429,64 @@ InfoChecks(m) ==
      <<"info.diff", q.diff, R.ans.diff>>,
      <<"info.utxosLength", UtxosLength(m), R.ans.utxosLength, UtxosLengthAlts(m)>> >>
 
+(***************************************************************************)
+(* The metrics endpoint (http_request, api/metrics.rs): answers whatever   *)
+(* the gate says; every gauge / counter the abstract state determines is   *)
+(* compared.  utxos_length / address_utxos_length are the raw stable maps  *)
+(* (partly updated while the anchor's ingestion is paused).                *)
+(***************************************************************************)
+PartialAddrDelta(m) ==
+  IF m.ing.b = 0 THEN 0
+  ELSE LET ops == BlockOps(m.ing.b)
+           spent(op) == LET o == Ins(op.t)[op.i] IN Outs(o[1])[o[2]].a
+       IN SumSeq([i \in 1..m.ing.k |->
+                    IF ops[i].kind = "in" THEN (IF spent(ops[i]) > 0 THEN -1 ELSE 0)
+                    ELSE IF Outs(ops[i].t)[ops[i].i].a > 0 THEN 1 ELSE 0])
+
+MetricsChecks(m) ==
+  IF R.path # "/metrics"
+  THEN << <<"metrics.notFound", 404, R.ans.status>>, <<"metrics.notFoundHeaders", 0, R.ans.nheaders>> >>
+  ELSE IF R.ans.k # "ok" THEN << <<"metrics.answer", "ok", R.ans.k>> >>
+  ELSE
+  LET g   == R.ans.g
+      L   == LedgerAt(StableTop(m))
+      n   == Len(m.T.arr)
+      b01(x) == IF x THEN 1 ELSE 0
+  IN << <<"metrics.status", 200, R.ans.status>>,
+        <<"metrics.contentLength", TRUE, R.ans.clenOk>>,
+        <<"metrics.wellformed", TRUE, R.ans.wellformed>>,
+        <<"metrics.timestamps", TRUE, R.ans.stampsOk>>,
+        <<"metrics.mainChainHeight", TipHeightOf(m), g.main_chain_height>>,
+        <<"metrics.stableHeight", Len(m.stable), g.stable_height>>,
+        <<"metrics.utxosLength", Cardinality(L) + PartialDelta(m), g.utxos_length>>,
+        <<"metrics.addressUtxosLength", Cardinality({e \in L : e.a > 0}) + PartialAddrDelta(m), g.address_utxos_length>>,
+        <<"metrics.anchorDifficulty", Diff(m.T.anchor), g.anchor_difficulty>>,
+        <<"metrics.stabilityThreshold", m.cfg.thr, g.stability_threshold>>,
+        <<"metrics.normalizedThreshold", m.cfg.thr * Diff(m.T.anchor), g.normalized_stability_threshold>>,
+        <<"metrics.depthBound", TRUE, RealDepthBoundOK(n, m.cfg.thr, g.testnet_unstable_max_depth_difference)>>,
+        <<"metrics.numTips", Cardinality(Leaves(m.T)), g.unstable_blocks_num_tips>>,
+        <<"metrics.unstableTotal", n, g.unstable_blocks_total>>,
+        <<"metrics.depth", DepthMap(m.T)[m.T.anchor], g.unstable_blocks_depth>>,
+        <<"metrics.difficultyDepth", DDMap(m.T)[m.T.anchor], g.unstable_blocks_difficulty_based_depth>>,
+        <<"metrics.rejects", m.cnt.rej, g.num_get_successors_rejects>>,
+        <<"metrics.deserializeErrors", m.cnt.deser, g.num_block_deserialize_errors>>,
+        <<"metrics.insertErrors", m.cnt.ins, g.num_insert_block_errors>>,
+        <<"metrics.sendTransactionCount", m.cnt.sendtx, g.send_transaction_count>>,
+        <<"metrics.cyclesBurnt", m.cnt.burnt, g.cycles_burnt>>,
+        <<"metrics.isSynced", b01(Synced(m)), g.is_synced>>,
+        <<"metrics.apiAccess", <<b01(m.cfg.api), b01(~m.cfg.api)>>, <<g.api_access_flag_enabled, g.api_access_flag_disabled>>>>,
+        <<"metrics.requests", <<m.cnt.reqInit + m.cnt.reqFollow, m.cnt.reqInit, m.cnt.reqFollow>>,
+                              <<g.get_successors_request_count_type_total, g.get_successors_request_count_type_initial,
+                                g.get_successors_request_count_type_follow_up>>>>,
+        <<"metrics.responses", <<m.cnt.respC + m.cnt.respP + m.cnt.respF, m.cnt.respC, m.cnt.respP, m.cnt.respF>>,
+                               <<g.get_successors_response_count_type_total, g.get_successors_response_count_type_complete,
+                                 g.get_successors_response_count_type_partial, g.get_successors_response_count_type_follow_up>>>>,
+        <<"metrics.responseBlocks", <<m.cnt.blkC + m.cnt.respP + m.cnt.respF, m.cnt.blkC, m.cnt.respP, m.cnt.respF>>,
+                               <<g.get_successors_response_block_count_type_total, g.get_successors_response_block_count_type_complete,
+                                 g.get_successors_response_block_count_type_partial, g.get_successors_response_block_count_type_follow_up>>>> >>
+
 TraceQuery ==
-  /\ Live("q") /\ R.ep \in {"utxos", "balance", "headers", "info", "config"}
+  /\ Live("q") /\ R.ep \in {"utxos", "balance", "headers", "info", "config", "metrics"}
   /\ UNCHANGED <<vars, bad, nad, upg>>
   /\ lastq' = IF R.ep = "utxos" /\ R.ac = "ok" /\ R.ans.k # "trap"
               THEN [addr |-> R.addr, mc |-> McOf, res |-> IF R.ans.k = "ok" THEN <<"ok", SumSeq([i \in 1..Len(R.ans.utxos) |-> R.ans.utxos[i][3]])>> ELSE <<"err", R.ans.err>>]
@@ -441,6 +497,7 @@ TraceQuery ==
                      [] R.ep = "headers" -> Gated(m, "get_block_headers", HeadersChecks(m))
                      [] R.ep = "info"    -> InfoChecks(m)
                      [] R.ep = "config"  -> << <<"config.value", m.cfg, R.ans.cfg>> >>
+                     [] R.ep = "metrics" -> MetricsChecks(m)
      IN AllAgree(checks) \in BOOLEAN
 
 \* the fee query may fill the cache, so it is a state-changing message
